@@ -96,7 +96,10 @@ def handleE (line : String) : Except String String := do
   let p0 ← parseProgram (← field j "p0")
   let steps ← arrF j "steps"
   let ws0 := C12.Model.wellSizedProgram p0 spReg.size
-  let mut acc : Acc := { tags := [if ws0 then "wellsized-input" else "illsized-input"] }
+  -- structural hypotheses of the run-level theorems of expression propagation (RunPropagation.lean)
+  let cfg0 := p0.subs.all (subCfgOk p0)
+  let mut acc : Acc := { tags := [if ws0 then "wellsized-input" else "illsized-input",
+    if cfg0 then "cfg-hyp-ok" else "cfg-hyp-outside"] }
   let mut cur := p0
   for st in steps do
     let pass ← strF st "pass"
@@ -131,6 +134,16 @@ def handleE (line : String) : Except String String := do
     | outOpt =>
       let out : Program := match outOpt with | some (.ok p) => p | _ => cur
       acc := { acc with tags := (pass ++ (if outOpt.isNone then "-unchanged" else "-changed")) :: acc.tags }
+      -- hypotheses of the run-level theorems (RunDeadVars.lean, RunControlFlow.lean; `OptimizeHyp` of Props.lean),
+      -- evaluated on the input of the pass
+      if pass == "dve" then
+        let shapeOk := cur.subs.all fun s => dveShapeOk s.term.blocks
+        let closed := cur.subs.all fun s =>
+          aliveClosed physRegs s.term.blocks (computeAliveVars physRegs s.term.blocks)
+        acc := { acc with tags := (if shapeOk then "dve-shape-hyp-ok" else "dve-shape-hyp-outside") ::
+          (if closed then "dve-model-alive-closed" else "dve-model-alive-not-closed") :: acc.tags }
+      if pass == "cf" then
+        acc := { acc with tags := (if cfOkB cur then "cf-hyp-ok" else "cf-hyp-outside") :: acc.tags }
       if ws0 && outOpt.isSome then
         -- (an unchanged program trivially behaves the same and stays well-sized)
         -- C12: the output of the pass is size-consistent
@@ -173,9 +186,17 @@ def handleE (line : String) : Except String String := do
         -- (b) the real tables are a post-fixpoint of the model's transfer functions (soundness condition)
         if tablesClosed p₁ rt then acc := { acc with tags := "prop-tables-closed" :: acc.tags }
         else acc := acc.addDiff "prop-tables-not-closed" "the tables of the real fixpoint are not a post-fixpoint of the model transfer"
+        -- (b') ... in which the entry block and every block a table is sent to have a value: together with (b)
+        -- the hypothesis of the run-level theorem `propagateProgramWith_preserves` (RunPropagation.lean)
+        if tablesReach p₁ rt then acc := { acc with tags := "prop-tables-reach" :: acc.tags }
+        else acc := acc.addDiff "prop-tables-not-reaching" "a block that is sent a table (or an entry block) has no value in the real fixpoint"
         -- (c) they normally equal the tables of the model's own iteration
-        if tableMapsAgree p₁ rt (computeTables p₁) then acc := { acc with tags := "prop-tables-equal" :: acc.tags }
+        let mt := computeTables p₁
+        if tableMapsAgree p₁ rt mt then acc := { acc with tags := "prop-tables-equal" :: acc.tags }
         else acc := { acc with tags := "prop-tables-differ-by-iteration-order" :: acc.tags }
+        -- (d) the model's own (fuelled) iteration reached a post-fixpoint: hypothesis of `propagateProgram_preserves`
+        if tablesClosed p₁ mt && tablesReach p₁ mt then acc := { acc with tags := "prop-model-tables-closed" :: acc.tags }
+        else acc := { acc with tags := "prop-model-tables-not-closed" :: acc.tags }
       cur := out
   -- the whole `normalize_optimize` (given when it differs from the chain of the single passes)
   match (field j "full").toOption with
